@@ -17,8 +17,36 @@ EXPLANATION = (
     "(typestate + K1/K3 of C01); no write of arr_time/start_vol/order_id/side/trader_id is reachable from modify_order.")
 
 
+class _Prefixed:
+    """a view of the check context that files every obligation under a prefixed rule name (C01 re-uses these rules as its
+    premise K7: a Modify event is one of the operations the reference engine replays)"""
+
+    def __init__(self, ctx, prefix):
+        self._ctx = ctx
+        self._p = prefix
+
+    def __getattr__(self, n):
+        return getattr(self._ctx, n)
+
+    def ok(self, rule, where, what):
+        return self._ctx.ok(self._p + rule, where, what)
+
+    def bad(self, rule, key, where, what):
+        return self._ctx.bad(self._p + rule, key, where, what)
+
+    def check(self, cond, rule, key, where, what_ok, what_bad=None):
+        return self._ctx.check(cond, self._p + rule, key, where, what_ok, what_bad)
+
+    def lost(self, rule, what):
+        return self._ctx.lost(self._p + rule, what)
+
+
 def run(ctx):
     m = Model(ctx)
+    modify_rules(ctx, m)
+
+
+def modify_rules(ctx, m, with_typestate=True):
     f = m.book_fn("modify_order")
     # whole-operation view: the dispatcher with every private helper (in-place reduction, replacement, unqueue / queue
     # helpers, placement helper, matching loops) spliced in - the rules below speak about what RUNS in each request case,
@@ -61,6 +89,11 @@ def run(ctx):
 
     def decide(active, strict, grid):
         def d(a):
+            if a[0] == "variant" and a[1][0] == "call" and a[1][4] == "checked_sub" and len(a[1][2]) == 2 and is_vol(a[1][2][0]) and same(a[1][2][1], payload(nv_)):
+                # current.checked_sub(v) is Some iff v <= current: certainly Some when v < current
+                if strict:
+                    return "Some" in a[2]
+                return None
             if a[0] != "cmp":
                 return None
             op, x, y = a[1], a[2], a[3]
@@ -77,6 +110,13 @@ def run(ctx):
                 if op == "gt":
                     return strict
                 if op == "le":
+                    return not strict
+            # `current.checked_sub(v)` tested through its payload: (current - v) > 0  <=>  v < current
+            if y[0] == "const" and y[3] == 0 and x[0] == "field" and x[2] == "0" and x[1][0] == "downcast" and x[1][2] == "Some" \
+                    and x[1][1][0] == "call" and x[1][1][4] == "checked_sub" and len(x[1][1][2]) == 2 and is_vol(x[1][1][2][0]) and same(x[1][1][2][1], payload(nv_)):
+                if op in ("gt", "ne"):
+                    return strict
+                if op in ("eq", "le"):
                     return not strict
             # new price on the tick grid
             if op in ("eq", "ne") and x[0] == "bin" and x[1] == "Rem" and same(x[2], payload(np_)) and y[0] == "const" and y[3] == 0 and grid is not None:
@@ -182,7 +222,7 @@ def run(ctx):
     # typestate: removal with current volume, insertion unfiled/Active/own side, exit invariant
     ts, roots, _ld = run_typestate(ctx, m)
     for v in ts.violations.values():
-        if v.rule in ("accounting", "insert", "remove", "exit-invariant", "key-side", "state-machine", "typestate-anchor"):
+        if with_typestate and v.rule in ("accounting", "insert", "remove", "exit-invariant", "key-side", "state-machine", "typestate-anchor"):
             ctx.bad("ts-" + v.rule, v.key, v.where, v.what)
     res = roots["modify_order"]
     rel = {(t[4], t[0], t[1]) for vs in res["exit"].values() for t in vs}
